@@ -130,9 +130,10 @@ UNITS += [
     Unit("bulk.set_value", "tasks.c", defines=DT + ["U_SET_VALUE"], enforce="set_value", replace=["get_chunk_size"],
          lifts={"body": Lift(BULK, r"void set_value\(Ts&&\.\.\. ts\) && noexcept", rules=[
              Sub(r"auto r = std::move\(\*this\);", "struct bulk_receiver r = *self;", 1),
-             Call(r"pika::execution::experimental::set_value", "recv_set_value()", 1),
+             Sub(r"std::forward<Ts>\(ts\)\.\.\.", "vx_fwd_pack()", None),
+             Call(r"pika::execution::experimental::set_value", "recv_set_value_pack({1})", 1),
              Sub(r"auto const chunk_size =\s*get_chunk_size\(", "chunk_t const chunk_size = g_arg_cs = get_chunk_size((uint32_t) ", 1),
-             Call(r"r\.op_state->ts\.template emplace<[^;]*?>", "ts_emplace(r.op_state)", 1),
+             Call(r"r\.op_state->ts\.template emplace<[^;]*?>", "ts_emplace(r.op_state, {0})", 1),
              Sub(r"\br\.(init_queue|do_work_task|do_work_local)\(", r"\1(&r, ", 3),
              Sub(r"pika::get_local_worker_thread_num\(\)", "get_local_worker_thread_num()", 1),
          ], post=[Auto(2)], loops={
